@@ -1,0 +1,7 @@
+//go:build !verif
+
+package verif
+
+// Yield marks a point at which a verification scheduler may suspend the calling
+// Goroutine. It is a no-op unless the verif build tag is specified.
+func Yield(_ string) {}
